@@ -458,7 +458,13 @@ def finish(prop, tier, seed, t0, uni, reports, by_name, extras, result, mod,
     for e in result["errors"]:
         print(f"CHECKER-ERROR property={prop} {e}")
     if exit_code is None:
-        if result["errors"]:
+        confirmed = [v for v in result["violations"]
+                     if "no-failing-input-found" not in v[2]]
+        if confirmed:
+            # a violation replayed on the real code stands even if another
+            # part of the check could not be run
+            exit_code = 1
+        elif result["errors"]:
             exit_code = 3
         elif result["violations"]:
             exit_code = 1
